@@ -46,50 +46,107 @@ fn int_or_absent(s: &str) -> Result<Option<i64>, ()> {
     }
 }
 
-/// Run `f` on a fresh 8 MiB thread (the size of a main thread's stack) whose lower part was painted
-/// beforehand; returns the answer and the stack class: `s` = at most 1 MiB of stack was touched,
-/// `D` = more.  (Coarse on purpose: the model predicts the class from its call-depth counter and the
-/// generator keeps away from the band where frame sizes would matter.)
-fn with_stack_class<F: FnOnce() -> String + Send + 'static>(f: F) -> String {
-    const S: usize = 8 << 20;
+// --- panic location ---------------------------------------------------------------------------
+// The shared child loop installs a silent panic hook; `run` replaces it (once) by one that records
+// where the panic was raised, so that the answer is `panic:<message> @<file under src/>:<line>`.
+static LAST_LOC: std::sync::Mutex<String> = std::sync::Mutex::new(String::new());
+static HOOK: std::sync::Once = std::sync::Once::new();
+
+fn install_hook() {
+    HOOK.call_once(|| {
+        std::panic::set_hook(Box::new(|info| {
+            let loc = info
+                .location()
+                .map(|l| {
+                    let f = l.file();
+                    let f = f.rsplit_once("/src/").map(|x| x.1).unwrap_or(f);
+                    format!("{}:{}", f, l.line())
+                })
+                .unwrap_or_else(|| "?".into());
+            if let Ok(mut g) = LAST_LOC.lock() {
+                *g = loc;
+            }
+        }));
+    });
+}
+
+fn panic_answer(e: Box<dyn std::any::Any + Send>) -> String {
+    let msg = if let Some(s) = e.downcast_ref::<&str>() {
+        s.to_string()
+    } else if let Some(s) = e.downcast_ref::<String>() {
+        s.clone()
+    } else {
+        "?".into()
+    };
+    let loc = LAST_LOC.lock().map(|g| g.clone()).unwrap_or_default();
+    format!("panic:{} @{}", msg, loc)
+}
+
+// --- stack class ------------------------------------------------------------------------------
+type Job = Box<dyn FnOnce() -> String + Send + 'static>;
+struct Probe {
+    tx: std::sync::mpsc::Sender<Job>,
+    rx: std::sync::mpsc::Receiver<String>,
+}
+static PROBE: std::sync::Mutex<Option<Probe>> = std::sync::Mutex::new(None);
+
+/// One long-lived 8 MiB thread (the size of a main thread's stack) whose lower part is painted; a
+/// job runs on it, then the lowest dirty probe gives the stack class: `s` = at most 1 MiB of stack
+/// was touched, `D` = more.  Only the dirtied part is repainted, so a request costs no page faults.
+/// (Coarse on purpose: the model predicts the class from its call-depth counter and the generator
+/// keeps away from the band where frame sizes would matter.)  A stack overflow kills the child.
+fn probe_thread(rx: std::sync::mpsc::Receiver<Job>, tx: std::sync::mpsc::Sender<String>) {
     const PAINT: usize = 2 << 20; // painted window below the probe frame
     const SHALLOW: usize = 1 << 20;
+    const MARGIN: usize = 16 << 10;
     const PAT: u8 = 0xA5;
-    let h = std::thread::Builder::new()
-        .stack_size(S)
-        .spawn(move || {
-            let marker = 0u8;
-            let top = (&marker as *const u8 as usize) & !7usize;
-            let low = top - PAINT;
-            let lim = top - 4096;
-            unsafe { std::ptr::write_bytes(low as *mut u8, PAT, lim - low) };
-            let r = match std::panic::catch_unwind(std::panic::AssertUnwindSafe(f)) {
-                Ok(a) => a,
-                Err(e) => {
-                    let msg = if let Some(s) = e.downcast_ref::<&str>() {
-                        s.to_string()
-                    } else if let Some(s) = e.downcast_ref::<String>() {
-                        s.clone()
-                    } else {
-                        "?".into()
-                    };
-                    return format!("panic:{}", msg);
-                }
-            };
-            // lowest dirty probe (one probe per 512 bytes)
-            let mut q = low;
-            while q < lim {
-                let v = unsafe { std::ptr::read_volatile(q as *const u64) };
-                if v != 0xA5A5_A5A5_A5A5_A5A5 {
-                    break;
-                }
-                q += 512;
+    let marker = 0u8;
+    let top = (&marker as *const u8 as usize) & !7usize;
+    let low = top - PAINT;
+    let lim = top - MARGIN;
+    unsafe { std::ptr::write_bytes(low as *mut u8, PAT, lim - low) };
+    while let Ok(job) = rx.recv() {
+        let r = match std::panic::catch_unwind(std::panic::AssertUnwindSafe(job)) {
+            Ok(a) => Ok(a),
+            Err(e) => Err(panic_answer(e)),
+        };
+        // lowest dirty probe (one probe per 512 bytes)
+        let mut q = low;
+        while q < lim {
+            let v = unsafe { std::ptr::read_volatile(q as *const u64) };
+            if v != 0xA5A5_A5A5_A5A5_A5A5 {
+                break;
             }
-            let used = top - q;
-            format!("{} {}", r, if used <= SHALLOW { "s" } else { "D" })
-        })
-        .expect("spawn probe thread");
-    match h.join() {
+            q += 512;
+        }
+        let used = top - q;
+        if q < lim {
+            let from = if q > low { q - 512 } else { low };
+            unsafe { std::ptr::write_bytes(from as *mut u8, PAT, lim - from) };
+        }
+        let ans = match r {
+            Ok(a) => format!("{} {}", a, if used <= SHALLOW { "s" } else { "D" }),
+            Err(p) => p,
+        };
+        if tx.send(ans).is_err() {
+            break;
+        }
+    }
+}
+
+fn with_stack_class<F: FnOnce() -> String + Send + 'static>(f: F) -> String {
+    let mut g = PROBE.lock().unwrap_or_else(|e| e.into_inner());
+    if g.is_none() {
+        let (jtx, jrx) = std::sync::mpsc::channel::<Job>();
+        let (atx, arx) = std::sync::mpsc::channel::<String>();
+        std::thread::Builder::new().stack_size(8 << 20).spawn(move || probe_thread(jrx, atx)).expect("spawn probe thread");
+        *g = Some(Probe { tx: jtx, rx: arx });
+    }
+    let p = g.as_ref().unwrap();
+    if p.tx.send(Box::new(f)).is_err() {
+        return "panic:probe-thread".into();
+    }
+    match p.rx.recv() {
         Ok(s) => s,
         Err(_) => "panic:probe-thread".into(),
     }
@@ -229,6 +286,14 @@ impl Pdf {
 // ------------------------------------------------------------------------------------------------
 
 fn run(req: &str) -> String {
+    install_hook();
+    match std::panic::catch_unwind(|| run_inner(req)) {
+        Ok(a) => a,
+        Err(e) => panic_answer(e),
+    }
+}
+
+fn run_inner(req: &str) -> String {
     let p: Vec<&str> = req.split(' ').collect();
     match p.as_slice() {
         ["a85", h] => {
@@ -1120,7 +1185,9 @@ fn gen_xref(rng: &mut Rng, tier: Tier, cases: &mut Vec<Case>) {
             2 => "0".into(),
             _ => "100000".into(),
         };
-        match rng.below(if tier == Tier::Quick { 60 } else { 30 }) {
+        // EOF inside the section is a hang (3 s + retry each): two directed cases in the quick tier
+        // (below), one in thirty of the random ones in the thorough tier
+        match if tier == Tier::Quick { 1 + rng.below(59) } else { rng.below(30) } {
             0 => {} // no trailer at all: EOF inside the section
             1 => lines.push(b"trailer".to_vec()),
             2 => lines.push(format!("<< /Size {} >>", size).into_bytes()),
@@ -1141,6 +1208,9 @@ fn gen_xref(rng: &mut Rng, tier: Tier, cases: &mut Vec<Case>) {
         }
         let req = format!("xref {}", if lines.is_empty() { ".".into() } else { lines.iter().map(|l| hex(l)).collect::<Vec<_>>().join("/") });
         cases.push(Case::new(req, format!("xref {} nt", if i % 2 == 0 { "a" } else { "b" })));
+    }
+    for ls in [vec![&b"0 1"[..], b"0000000000 65535 f "], vec![&b"3 0"[..], b"% only a comment"]] {
+        cases.push(Case::new(format!("xref {}", ls.iter().map(|l| hex(l)).collect::<Vec<_>>().join("/")), "xref eof-in-section nt"));
     }
 }
 
@@ -1256,7 +1326,7 @@ fn gen_small(rng: &mut Rng, tier: Tier, cases: &mut Vec<Case>) {
 
 /// grammar-generated skeletons × boundary integers in every numeric slot × presets
 fn gen_explore(rng: &mut Rng, tier: Tier, cases: &mut Vec<Case>) {
-    let n = if tier == Tier::Quick { 260 } else { 4000 };
+    let n = if tier == Tier::Quick { 160 } else { 4000 };
     for _ in 0..n {
         let slot = |rng: &mut Rng, normal: i64| -> String { if rng.chance(1, 7) { bt(rng).to_string() } else { normal.to_string() } };
         let content: Vec<u8> = match rng.below(5) {
@@ -1370,12 +1440,15 @@ fn gen(rng: &mut Rng, tier: Tier) -> Vec<Case> {
 }
 
 fn limits() -> Limits {
-    Limits { per_case: std::time::Duration::from_secs(4), rlimit_as: 4 << 30, stack: 8 << 20 }
+    Limits { per_case: std::time::Duration::from_secs(3), rlimit_as: 4 << 30, stack: 8 << 20 }
 }
 
 /// Same command line and output as `harness_main`; `emit` spreads the isolated children over a few
 /// threads (requests are independent, the output keeps the generated order).
 fn main() {
+    // an allocation failure aborts through `handle_alloc_error`; symbolising a backtrace for it in a
+    // debug binary costs a second per case
+    std::env::set_var("RUST_BACKTRACE", "0");
     let args: Vec<String> = std::env::args().collect();
     let is_emit = args.get(1).map(|s| s == "emit").unwrap_or(false);
     if !is_emit || args.iter().any(|a| a == "--child") {
